@@ -6,7 +6,7 @@ ID = "C08"
 LEAN_MODULE = "Ucfg.Props.C08"
 LEVEL_TEXT = 'Theorems: a re-entered reference is an error at that point, active sets are scoped (repeated uses and diamonds are not cycles), the cache holds primitives only, FlattenedKeys stops on revisit, fuel is never a value. PARTIAL: fuel sufficiency for acyclic graphs not proved; divergence of the real code decided by stack/time limits; known finding D17.'
 CORRESPONDENCE = "Eval.{force,dynValue,resolveRef,flattenedKeysE} ~ every read API on configs created with VarExp"
-RULE = ("reference graphs over n <= 8 settings: self references, references to ancestors and descendants (a nested object "
+RULE = ("Plus: read, change what a computed name ${${sel}} selects by a merge (a cycle goes away / comes into being / another setting), read again - the second read is decided by the configuration as it is then (reads0). Main stream: reference graphs over n <= 8 settings: self references, references to ancestors and descendants (a nested object "
         "referencing its parent, the parent referencing a child), chains, diamonds, repeated uses in one string, references inside "
         "default/alternative operands and inside reference names; read through every entry point: String getter per setting, Unpack "
         "(whole config), Unpack of one setting into typed fields ([]string, []interface{}, [1]string, time.Duration, int64, *string, string), Has, CountField, Child+Unpack, FlattenedKeys, diff.CompareConfigs. The worker runs each case in a process with "
@@ -157,6 +157,33 @@ def gen(rng, tier):
         c["_sig"] = "%s|%d" % (kind, len(names))
         yield c
     yield from list_graph_cases(rng.fork("lists"), tier)
+    yield from reread_cases(rng.fork("reread"), tier)
+
+
+def reread_cases(rng, tier):
+    """read, change what a computed name selects (a cycle goes away, a cycle comes into being, another setting is
+    selected), read again: the second read is decided by the configuration as it is then"""
+    VO = [opt("PathSep", "."), opt("VarExp")]
+    for i in range(60 if tier == "quick" else 600):
+        tail = rng.pick(["", "-t", "/x"])
+        form = rng.pick(["${${sel}}", "${${sel}}", "p${${sel}}", "${${sel}:dflt}"])
+        first, then = rng.pick([("v", "x"), ("x", "v"), ("x", "y"), ("y", "x"), ("v", "y")])
+        src = M(rng.shuffle([("sel", S(first)), ("v", S(form)), ("x", S("one")), ("y", S("two")), ("w", S("${v}" + tail))]))
+        def val(sel):
+            if sel == "v":
+                return None if "dflt" not in form else None     # re-entry: an error, or absorbed by the default (not decided here)
+            base = {"x": "one", "y": "two"}[sel]
+            return ("p" if form.startswith("p") else "") + base
+        want_v = val(then)
+        reads = [{"r": "get", "type": "String", "name": "v", "idx": -1}, {"r": "get", "type": "String", "name": "w", "idx": -1}]
+        if want_v is None:
+            expect = [({"anyerr": True} if "dflt" not in form else None), ({"anyerr": True} if "dflt" not in form else None)]
+        else:
+            expect = [{"ok": {"s": want_v}}, {"ok": {"s": want_v + tail}}]
+        reads0 = list(reads) + ([{"r": "view"}] if rng.chance(0.5) else [])
+        yield {"k": "eval", "from": src, "opts": VO, "reads0": reads0, "merges": [{"b": M([("sel", S(then))]), "opts": VO}], "ropts": VO,
+               "reads": reads, "expect": expect, "repeat": 2, "_tag": "reread/" + first + "-" + then, "_nt": True,
+               "_sig": "reread|%s|%s|%s|%s" % (first, then, form, tail)}
 
 
 def list_graph_cases(rng, tier):
